@@ -7,8 +7,8 @@ TEXT = {
          "length invariant over every history; path_padding_param regenerated from source each run",
          "scipy Rotation assumed a group action; rotate_from_* conversions are scipy's (corr only); floats observed by oracle (1e-9)",
          "Lean 4 theorems (refinement to docstring spec + invariant by induction over histories) over a hand-written model; generated path_padding_param; differential correspondence on exact data"),
- "C10": ("proof: move and rotate (any anchor form incl. the parent_path recursion through nested collections, any start) on a collection keep "
-         "every descendant's relative pose and a common path length; child operations are local; setters modelled and tied by correspondence + oracle (theorem pending)",
+ "C10": ("proof: move, rotate (any anchor form incl. the parent_path recursion through nested collections, any start), position= and orientation= on a collection keep "
+         "every descendant's relative pose at every retained path index, for any nesting depth; child operations are local",
          "equal-path-length hypothesis as in the property; scipy Rotation assumed a group action; float effects observed by oracle (1e-8)",
          "Lean 4 theorems over a group acting on an additive group (refinement of the recursive move/_rotate to 'same rigid motion for all members'); differential correspondence on exact data"),
  "C11": ("proof (partial: acyclicity clause not yet proved): every operation of the tree-editing API, accepted or rejected, preserves "
